@@ -421,6 +421,15 @@ pub fn gen_fmt(rng: &mut Rng, n: usize, which: &str, out: &mut Vec<String>) {
                 }
             }
         }
+        if which == "C09" && i % 5 == 2 {
+            // literals the lexer repairs with an error token (value out of range, `0x` without digits):
+            // the formatter must print them back as they were written
+            for t in toks.iter_mut() {
+                if t.binding == gen_prog::Binding::None && t.text.chars().all(|c| c.is_ascii_digit()) && !t.text.is_empty() && t.gap != "in-type" && rng.chance(1, 4) {
+                    t.text = rng.pick(&["0x1FFFFFFFF", "99999999999", "0xABCDEF012", "4294967296", "0x100000000"]).to_string();
+                }
+            }
+        }
         if which == "C09" && i % 3 == 1 {
             // ill-typed but syntactically valid: one injected violation of a static rule
             let class = *rng.pick(crate::ops_sem::FAULT_CLASSES);
